@@ -33,6 +33,7 @@ RULE = (
     "unknown item, duplicate); stock compute() calls that fail for one label (singular survival table, NaN, missing parameters) must leave stock / inflow / outflow untouched. Invariant on every register after every transition; failed transitions must "
     "change nothing. State key = per register (dims signature, dtype, value bytes): exact. E1: validator table "
     "over all arrangements of {t,p,q} (3 items each). Non-trivial = transition that changes a register or raises."
+    " Also: namesake dimensions (same name, other letter / length) for stocks and inside one set, the scalar constructor, a failing flow-driven compute."
 )
 ASSUMPTIONS = [
     "depth bound 2 (quick) / 3 (thorough); three registers; <= 3 dimensions with <= 3 items",
